@@ -161,6 +161,9 @@ def analyse(ev, nq):
             final = (int(e[1]), e[2])
             if e[2] != "ok":
                 fails.append(("stale-after-apply", f"a snapshot taken after all changes answered {e[2]} instead of the answers of version {e[1]}", i))
+        elif k == "G":
+            if e[1] != "ok":
+                fails.append(("stale-after-apply", f"after a module was added to the package (content and source roots, the package graph not set again) a new snapshot answered {e[1]} instead of the answers of the grown workspace", i))
         elif k == "T":
             cold = int(e[1])
         elif k == "P":
